@@ -377,7 +377,7 @@ def finite_horizon_dp(
 		# (accounting appropriately for variations among periods, and adjusting
 		# period T to include terminal costs)
 		x_min = int(round(np.min(nv[1:]) - np.max(demand_mean[1:]) - np.max(demand_sd[1:]) * (s_spread + d_spread)))
-		x_max = int(round(np.max(nv[1:]) + np.max(Q[1:]) + np.max(demand_sd[1:]) * s_spread))
+		x_max = int(round(np.max(nv[1:]) + np.max(Q) + np.max(demand_sd[1:]) * s_spread))
 		x_range = np.array(range(x_min, x_max+1))
 
 	# Note:
